@@ -2,6 +2,7 @@ package props
 
 import (
 	"bytes"
+	"encoding/json"
 	"fmt"
 	"math"
 	"math/big"
@@ -143,9 +144,9 @@ type c10CtorCase struct {
 func c10CtorSub() *engine.Sub {
 	return &engine.Sub{
 		Name: "constructors",
-		Rule: "every token of the d<=2 option universe (C07's alphabet), plus nonce lengths 0..13 and undefined principals in every position: whatever a constructor returns has a defined issuer, the principals its type requires and a nonce of >=12 bytes; non-trivial = constructor accepted",
+		Rule: "every token of the d<=2 option universe (C07's alphabet), plus nonce lengths 0..13 for an issuer of every key algorithm and undefined principals in every position: whatever a constructor returns has a defined issuer, the principals its type requires and a nonce of >=12 bytes; non-trivial = constructor accepted",
 		Bound: func(string) string {
-			return "d<=2 option deviations on Ed25519; nonce lengths 0..13 x 2 kinds; 5 undefined-principal placements"
+			return "d<=2 option deviations on Ed25519; nonce lengths 0..13 x 2 kinds x 7 key algorithms; 5 undefined-principal placements"
 		},
 		Gen: func(tier string, emit func(any) bool) {
 			for _, kind := range []string{"dlg", "inv"} {
@@ -157,9 +158,11 @@ func c10CtorSub() *engine.Sub {
 				if !ok {
 					return
 				}
-				for n := 0; n <= 13; n++ {
-					if !emit(&c10CtorCase{Spec: TokSpec{Kind: kind, Alg: "ed25519"}, NonceLen: n}) {
-						return
+				for _, alg := range fixtures.Algs() {
+					for n := 0; n <= 13; n++ {
+						if !emit(&c10CtorCase{Spec: TokSpec{Kind: kind, Alg: alg}, NonceLen: n}) {
+							return
+						}
 					}
 				}
 			}
@@ -178,6 +181,9 @@ func c10CtorSub() *engine.Sub {
 			var tok any
 			var err error
 			k := fixtures.Get("ed25519", 0)
+			if cs.NonceLen >= 0 && cs.Spec.Alg != "" {
+				k = fixtures.Get(cs.Spec.Alg, 0)
+			}
 			o := otherPrincipal(k, 1)
 			switch {
 			case cs.Undef != "":
@@ -608,9 +614,25 @@ func c10DecoderSub() *engine.Sub {
 		Repeat: true,
 		Rule:   "payload of a fully populated delegation / invocation with one field (quick) or two fields (thorough, pairs of a representative subset) mutated - dropped, nulled, retyped to each IPLD kind, integers at +/-2^53, +/-(2^53-1), int64 extremes and uint64 beyond int64 in time fields / argument values / policy literals / metadata, invalid and unusual commands, invalid DIDs, nonce lengths 0..13, malformed policies and proof lists, an unknown extra field - then signed correctly by the issuer and offered to generic and both typed decoders; must-reject mutations must be rejected (a panic is not a rejection), whatever is returned must be well formed and of the decoder's type; non-trivial = all",
 		Bound: func(t string) string {
-			return "2 kinds x every field x ~20-40 mutations (d=1); thorough adds pairs over 6 representative mutations per field; Ed25519 and P-256 issuers"
+			return "2 kinds x every field x ~20-40 mutations (d=1); thorough adds pairs over 6 representative mutations per field; Ed25519 and P-256 issuers (nonce mutations: issuers of all 7 key algorithms)"
 		},
 		Gen: func(tier string, emit func(any) bool) {
+			// nonce lengths with an issuer of every other key algorithm (the minimum does not depend on the key)
+			for _, alg := range fixtures.Algs() {
+				if alg == "ed25519" || alg == "p256" {
+					continue
+				}
+				for _, kind := range []string{"dlg", "inv"} {
+					if !emit(&c10DecCase{Kind: kind, Alg: alg}) {
+						return
+					}
+					for _, m := range c10Mutations(kind, "nonce") {
+						if !emit(&c10DecCase{Kind: kind, Alg: alg, Muts: []c10Mut{{"nonce", m}}}) {
+							return
+						}
+					}
+				}
+			}
 			for _, alg := range []string{"ed25519", "p256"} {
 				for _, kind := range []string{"dlg", "inv"} {
 					if !emit(&c10DecCase{Kind: kind, Alg: alg}) {
@@ -895,6 +917,11 @@ func c10GoValues() []goValue {
 		goValue{"struct", "struct{}", struct{ A int }{1}, nil}, goValue{"chan", "chan", make(chan int), nil}, goValue{"func", "func", func() {}, nil},
 		goValue{"map[int]int", "{1:1}", map[int]int{1: 1}, nil}, goValue{"nil", "nil", nil, nil}, goValue{"[]any", "[nil]", []any{nil}, nil},
 	)
+	// numbers in text form (encoding/json with UseNumber): kept as text, stored as exactly that number, or rejected
+	for _, t := range []string{"7", "-7", "9007199254740991", "9007199254740992", "9223372036854775807", "9223372036854775808", "12345678901234567890123", "-12345678901234567890123", "1.5", "1e400", "1e-400", "0.5e1", "not-a-number", ""} {
+		r = append(r, goValue{"json.Number", t, json.Number(t), nil})
+	}
+	r = append(r, goValue{"[]json.Number", "[7,12345678901234567890123]", []json.Number{"7", "12345678901234567890123"}, nil})
 	// content other than numbers: strings, bytes, bools, nesting, order, emptiness, aliasing-prone kinds
 	type myBytes []byte
 	type myBool bool
@@ -1156,7 +1183,7 @@ func c10ValueSub() *engine.Sub {
 	return &engine.Sub{
 		Name:   "go-values-stored-exactly",
 		Repeat: true,
-		Rule:   "every Go numeric type x {0, +/-1, +/-(2^53-1), +/-2^53, type min, type max}, float specials, named types, containers and pointers carrying boundary numbers, strings, bytes, CIDs, IPLD nodes and unsupported types, handed to literal.Any, args.Add, args.Builder (Build / BuildIPLD), args.ToIPLD, args.Include + Clone, invocation.WithArgument / WithArguments and meta.Add: the call returns an error (never panics) or stores a node whose numbers are mathematically equal to the supplied ones and whose whole content (kinds, strings, bytes, booleans, links, list order and length, map keys) equals the reference rendering of the Go value; a second Add of a key is rejected and leaves the first value in place; arguments additionally never hold an integer beyond +/-(2^53-1); non-trivial = numeric values",
+		Rule:   "every Go numeric type x {0, +/-1, +/-(2^53-1), +/-2^53, type min, type max}, float specials, named types, containers and pointers carrying boundary numbers, strings, bytes, CIDs, IPLD nodes, numbers in text form (json.Number, up to 23 digits and beyond the float64 range) and unsupported types, handed to literal.Any, args.Add, args.Builder (Build / BuildIPLD), args.ToIPLD, args.Include + Clone, invocation.WithArgument / WithArguments and meta.Add: the call returns an error (never panics) or stores a node whose numbers are mathematically equal to the supplied ones and whose whole content (kinds, strings, bytes, booleans, links, list order and length, map keys) equals the reference rendering of the Go value; a second Add of a key is rejected and leaves the first value in place; arguments additionally never hold an integer beyond +/-(2^53-1); non-trivial = numeric values",
 		Bound:  func(string) string { return fmt.Sprintf("%d Go values x 10 entry points", len(vals)) },
 		Gen: func(tier string, emit func(any) bool) {
 			for _, v := range vals {
@@ -1315,6 +1342,48 @@ func c10ValueSub() *engine.Sub {
 					ctx.Failf(cs, "duplicate-key-mishandled", "%s(%s %s): %v", e.name, cs.Type, cs.Val, err)
 				case err != nil:
 					ctx.Outcome("rejected")
+				case cs.Type == "json.Number" || cs.Type == "[]json.Number":
+					// a number in text form: kept as that text, or stored as a number of exactly that value
+					ctx.Outcome("stored")
+					texts := []string{}
+					switch x := gv.V.(type) {
+					case json.Number:
+						texts = append(texts, string(x))
+					case []json.Number:
+						for _, t := range x {
+							texts = append(texts, string(t))
+						}
+					}
+					leaves := []datamodel.Node{n}
+					if cs.Type == "[]json.Number" {
+						leaves = nil
+						if n.Kind() == datamodel.Kind_List {
+							it := n.ListIterator()
+							for !it.Done() {
+								_, v, _ := it.Next()
+								leaves = append(leaves, v)
+							}
+						}
+					}
+					if len(leaves) != len(texts) {
+						ctx.Failf(cs, "value-silently-altered/content/"+cs.Type, "%s(%s %s) stored %.200s", e.name, cs.Type, cs.Val, nodeShape(n))
+						break
+					}
+					for i, leaf := range leaves {
+						if s, err := leaf.AsString(); err == nil && s == texts[i] {
+							continue
+						}
+						exact, _, perr := new(big.Float).SetPrec(4000).Parse(texts[i], 10)
+						got, isNum := nodeMath(leaf)
+						if perr != nil || !isNum || exact.Cmp(got) != 0 {
+							ctx.Failf(cs, "value-silently-altered/"+cs.Type, "%s(%s %s) stored %.200s for the number text %q", e.name, cs.Type, cs.Val, nodeShape(leaf), texts[i])
+						}
+					}
+					if e.args {
+						if ok, w := intsInRange(n); !ok {
+							ctx.Failf(cs, "argument-int-out-of-int53/"+cs.Type, "%s(%s %s) stored the integer %s beyond +/-(2^53-1)", e.name, cs.Type, cs.Val, w)
+						}
+					}
 				default:
 					ctx.Outcome("stored")
 					if haveShape {
